@@ -110,7 +110,7 @@ func checkC08(c *Ctx) {
 		p := pathOf(u.key)
 		for _, prm := range u.f.Params {
 			if strings.HasSuffix(typeShort(prm.Type()), "DecoyRegistration") {
-				p = regexp.MustCompile(`\b`+regexp.QuoteMeta(prm.Name())+`\b`).ReplaceAllString(p, "$$reg")
+				p = regexp.MustCompile(`\b`+regexp.QuoteMeta(pname(prm))+`\b`).ReplaceAllString(p, "$$reg")
 			}
 		}
 		shapes[p] = append(shapes[p], fnName(u.f))
